@@ -17,6 +17,12 @@
 (*   AuctionBid(o,b)                    the builder-bid strategy answers (environment)            *)
 (*   RegisterRun(o)                     the registration round                                    *)
 (*   Return(o)                          the call returns                                          *)
+(* The service instance and its history are explicit: an operation is an interval Start .. Return   *)
+(* on the ONE long-lived service, operations overlap as the environment decides, during[o] holds     *)
+(* the configurations in force during the interval, and AnswersInForce demands of every lookup and   *)
+(* auction an answer from one of them, whatever the instance has seen before.  Resolution selects    *)
+(* how the settings are worked out (under the lock / from a snapshot afterwards) and two control      *)
+(* models that remember worked-out settings on the instance ("memo": rejected, "memochecked").        *)
 (* AuctionImpl = "pinned" renders auctionBlock as it is written on the pinned tree (outer RLock,   *)
 (* nested RLock inside ProposerConfig, no RUnlock on the error return); it exists only to show     *)
 (* that the model discriminates (LockBalanced and NoWedge fail for it).  "intended" is the         *)
@@ -35,6 +41,12 @@
 (* cancels the context of one call because of another; SpecC11SharedCancelR/N/P render a fan-out   *)
 (* with one derived context that the first failing call cancels (errgroup.WithContext) and exist   *)
 (* only to show that FailureIsolated / PreparationIsolated / ForwardedAll discriminate.            *)
+(* Calls follow each other on one long-lived instance in any order and with any outcome; what a     *)
+(* round may leave behind for later calls is named (signedEver / latestSigned, controlled, the        *)
+(* active configuration), everything else is reset per round; every call returns (RoundReturns,      *)
+(* F2Returns, CallsProgress).  Overlap: a fetch inside a round that waits for its relays (MidRound)   *)
+(* and a REST forwarding call with a lane of its own (fw, F2...).  SpecC11Slot(leaky) are control      *)
+(* models with a per-relay submission slot kept on the service (leaky: rejected).                    *)
 EXTENDS Integers, FiniteSets, Sequences, TLC
 
 CONSTANTS Validators,    \* validators Vouch holds accounts for          (subset of {1,2})
@@ -809,13 +821,25 @@ SpecC11 == Init /\ [][NextC11]_vars
 \* (The bound on the number of calls is a guard here, not a CONSTRAINT, so that liveness is checked on complete
 \* behaviours.)
 MoreCalls == rounds < MaxRounds
+\* (rounds and preparations of all accounts, one REST registration at a time: the liveness configurations follow
+\* the calls in full detail - every overlap, partial delivery and outcome - over histories of three calls)
+StartsLive ==
+    \/ \E out \in Outcomes : ConfigFetch(out)
+    \/ RoundStart(Validators) \/ PrepStart(Validators)
+    \/ \E regs \in {S \in SUBSET FwdCandidates : Cardinality(S) = 1} : FwdStart(regs)
 NextC11Live ==
-    \/ MoreCalls /\ (Core(StartsCore) \/ Lane2(F2Starts))
+    \/ MoreCalls /\ (Core(StartsLive) \/ Lane2(F2Starts))
     \/ Core(ProgressCore) \/ Lane2(ProgressF2)
 SpecC11Live == Init /\ [][NextC11Live]_vars /\ WF_vars(Core(ProgressCore)) /\ WF_vars(Lane2(ProgressF2))
 
 RoundReturns == (phase # "idle") ~> (phase = "idle")
 F2Returns == fw.on ~> ~fw.on
+
+\* The same as a state invariant (checked without the cost of liveness checking): while a call is in flight some
+\* step of a call in flight is possible.  A call takes finitely many steps (every step starts or finishes a
+\* relay / node call, delivers a batch or ends a round), so "never stuck" and Env_Responds give RoundReturns.
+Busy == phase # "idle" \/ fw.on
+CallsProgress == Busy => ENABLED (Core(ProgressCore) \/ Lane2(ProgressF2))
 
 \* CONTROL MODELS (state carried on the instance between calls), not the intended design: "only one submission
 \* to a relay at a time" - a per-relay slot that lives on the service, taken before the relay's client is called
@@ -841,12 +865,14 @@ SlotProgressF2(leaky) ==
     \/ Lane2(F2End)
 
 NextC11Slot(leaky) ==
-    \/ MoreCalls /\ (Core(StartsCore) \/ Lane2(F2Starts))
+    \/ MoreCalls /\ (Core(StartsLive) \/ Lane2(F2Starts))
     \/ SlotProgressCore(leaky) \/ SlotProgressF2(leaky)
 SpecC11Slot(leaky) == Init /\ [][NextC11Slot(leaky)]_vars
                       /\ WF_vars(SlotProgressCore(leaky)) /\ WF_vars(SlotProgressF2(leaky))
 SpecC11SlotDefer == SpecC11Slot(FALSE)
 SpecC11SlotLeaky == SpecC11Slot(TRUE)
+CallsProgressSlotDefer == Busy => ENABLED (SlotProgressCore(FALSE) \/ SlotProgressF2(FALSE))
+CallsProgressSlotLeaky == Busy => ENABLED (SlotProgressCore(TRUE) \/ SlotProgressF2(TRUE))
 
 \* NOT the intended protocol: the calls of a fan-out share one derived context which the first call that
 \* fails cancels (errgroup.WithContext; a loop that gives up its context after a failing node).  Every other
